@@ -30,7 +30,9 @@ def closure(ctx, work):
                 defined.add(p[2])
         ext = sorted({l.split()[-1] for l in nm.split('\n') if l.strip().startswith('U ')} - defined)
         for s in ext:
-            if s not in ALLOWED_UNDEFINED:
+            # compiler arithmetic helpers of libgcc / compiler-rt (integer division, multiplication, shifts, bit counting on 32/64/128-bit integers)
+            helper = re.match(r'^__(u?div|u?mod|u?divmod|mul|ashl|ashr|lshr|neg|u?cmp|clz|ctz|ffs|popcount|parity|bswap)[sdt]i[234]$', s) is not None
+            if s not in ALLOWED_UNDEFINED and not helper:
                 ctx.violation('closure:undefined:%s' % s, 'library object files (%s build) reference external symbol %s (only C memory primitives and compiler arithmetic helpers are allowed)' % (cfg, s),
                               {'config': cfg, 'symbol': s})
             ctx.event('undefined-symbol-table', '%s/%s' % (cfg, s))
